@@ -20,9 +20,99 @@ def escape (cs : List Char) : String :=
     if c = '\\' then ['\\', '\\'] else if c = '\n' then ['\\', 'n']
     else if c = '\r' then ['\\', 'r'] else if c = '\t' then ['\\', 't'] else [c])
 
-/-- model sessions for the C04 protocol: evaluator = echo (slot = line) -/
+def hexVal (c : Char) : Nat :=
+  if '0' ≤ c ∧ c ≤ '9' then c.toNat - '0'.toNat
+  else if 'a' ≤ c ∧ c ≤ 'f' then c.toNat - 'a'.toNat + 10
+  else if 'A' ≤ c ∧ c ≤ 'F' then c.toNat - 'A'.toNat + 10 else 0
+
+def floatOfHex (s : String) : Float :=
+  Float.ofBits (UInt64.ofNat (s.toList.foldl (fun a c => a * 16 + hexVal c) 0))
+
+def hexDigit (n : Nat) : Char := if n < 10 then Char.ofNat (48 + n) else Char.ofNat (87 + n)
+
+def hexOfFloat (x : Float) : String :=
+  let b := x.toBits.toNat
+  String.ofList ((List.range 16).map fun i => hexDigit ((b / 16 ^ (15 - i)) % 16))
+
+/-! ### token wire format (see tools/wire.py) -/
+
+def hexOfString (s : String) : String :=
+  String.ofList (s.toUTF8.toList.flatMap fun b => [hexDigit (b.toNat / 16), hexDigit (b.toNat % 16)])
+
+def stringOfHex (h : String) : String :=
+  let rec go : List Char → List UInt8
+    | a :: b :: rest => UInt8.ofNat (hexVal a * 16 + hexVal b) :: go rest
+    | _ => []
+  match String.fromUTF8? (ByteArray.mk (go h.toList).toArray) with
+  | some s => s
+  | none => "?"
+
+def ntCode : NumType → String
+  | .decimal => "d" | .octal => "o" | .hex => "h" | .binary => "b" | .raw => "r"
+
+def ntOfCode (s : String) : NumType :=
+  if s = "o" then .octal else if s = "h" then .hex else if s = "b" then .binary else if s = "r" then .raw else .decimal
+
+def encItem : Item Float → String
+  | .number v t => s!"N:{hexOfFloat v}:{ntCode t}"
+  | .percent v => s!"P:{hexOfFloat v}"
+  | .money v c => s!"M:{hexOfFloat v}:{c}"
+  | .time s tz => s!"Ti:{s}:{hexOfString tz.name}:{tz.off}"
+  | .date d tz => s!"D:{d.y}:{d.m}:{d.d}:{hexOfString tz.name}:{tz.off}"
+  | .dateTime s tz => s!"DT:{s}:{hexOfString tz.name}:{tz.off}"
+  | .duration s => s!"Du:{s}"
+  | .dyn v u => s!"DY:{hexOfFloat v}:{hexOfString u.group}:{u.index}"
+
+def encTok : Tok Float → String
+  | .item i => encItem i
+  | .text s => s!"T:{hexOfString s}"
+  | .op o => s!"O:{o.toChar.toNat}"
+  | .field _ => "F"
+  | .var n => s!"V:{hexOfString n}"
+  | .month m => s!"Mo:{m}"
+  | .tz n o => s!"TZ:{hexOfString n}:{o}"
+
+def decTok (s : String) : Option (Tok Float) :=
+  match s.splitOn ":" with
+  | ["N", b, t] => some (.item (.number (floatOfHex b) (ntOfCode t)))
+  | ["P", b] => some (.item (.percent (floatOfHex b)))
+  | ["M", b, c] => some (.item (.money (floatOfHex b) c))
+  | ["Ti", secs, n, o] => some (.item (.time secs.toInt! ⟨stringOfHex n, o.toInt!⟩))
+  | ["D", y, m, d, n, o] => some (.item (.date ⟨y.toInt!, m.toNat!, d.toNat!⟩ ⟨stringOfHex n, o.toInt!⟩))
+  | ["DT", secs, n, o] => some (.item (.dateTime secs.toInt! ⟨stringOfHex n, o.toInt!⟩))
+  | ["Du", secs] => some (.item (.duration secs.toInt!))
+  | ["DY", b, g, i] => some (.item (.dyn (floatOfHex b) ⟨stringOfHex g, i.toNat!⟩))
+  | ["T", h] => some (.text (stringOfHex h))
+  | ["T"] => some (.text "")
+  | ["O", c] => some (.op (Op.ofChar (Char.ofNat c.toNat!)))
+  | ["V", h] => some (.var (stringOfHex h))
+  | ["Mo", m] => some (.month m.toNat!)
+  | ["TZ", n, o] => some (.tz (stringOfHex n) o.toInt!)
+  | _ => none
+
+/-- `start,stop,active,texthex,tok` ; tok `-` = untyped ; unsupported token kinds make the whole
+    request unsupported -/
+def decInfo (s : String) : Option (TokInfo Float) :=
+  match s.splitOn "," with
+  | [a, b, act, txt, tok] =>
+    if tok = "-" then some { start := a.toNat!, stop := b.toNat!, tok := none, text := stringOfHex txt, active := act = "1" }
+    else (decTok tok).map fun t => { start := a.toNat!, stop := b.toNat!, tok := some t, text := stringOfHex txt, active := act = "1" }
+  | _ => none
+
+def decInfos (s : String) : Option (List (TokInfo Float)) :=
+  if s.isEmpty then some [] else (s.splitOn " ").mapM decInfo
+
+def encInfo (ti : TokInfo Float) : String :=
+  s!"{ti.start},{ti.stop},{if ti.active then "1" else "0"}," ++ (match ti.tok with | some t => encTok t | none => "-")
+
+/-- driver state: model sessions for the C04 protocol (evaluator = echo), plus one calculator
+    configuration, the current time and one variable environment for line evaluation -/
 structure DState where
   sessions : List (Nat × Sess Unit) := []
+  cfg : Cfg Float := Gen.cfg Float
+  now : Now := ⟨0⟩
+  vars : Vars Float := []
+  apiRules : List (String × Rule Float) := []
 
 def echoEv : Unit → List Char → Unit × List Char := fun _ l => ((), l)
 
@@ -50,6 +140,46 @@ def step (st : DState) (line : String) : DState × String :=
     let s := st.getSess id.toNat!
     let (s', status, rs) := execSession echoEv s
     (st.setSess id.toNat! s', s!"{status}\t{rs.length}\t" ++ "\t".intercalate (rs.map escape))
+  | ["now", secs] => ({ st with now := ⟨secs.toInt!⟩ }, "ok")
+  | ["reset"] => ({ st with cfg := Gen.cfg Float, vars := [], apiRules := [] }, "ok")
+  | ["newvars"] => ({ st with vars := [] }, "ok")
+  | ["cfg_sep", dec, thou] =>
+    ({ st with cfg := { st.cfg with dec := stringOfHex dec, thou := stringOfHex thou } }, "ok")
+  | ["cfg_num", d, rz, r] =>
+    ({ st with cfg := { st.cfg with numFmt := ⟨d.toNat!, rz = "1", r = "1"⟩ } }, "ok")
+  | ["cfg_pct", d, rz, r] =>
+    ({ st with cfg := { st.cfg with pctFmt := ⟨d.toNat!, rz = "1", r = "1"⟩ } }, "ok")
+  | ["cfg_money", rz, r] =>
+    ({ st with cfg := { st.cfg with moneyRemoveZero := rz = "1", moneyRounding := r = "1" } }, "ok")
+  | ["cfg_tz", name, off] =>
+    ({ st with cfg := { st.cfg with tz := ⟨stringOfHex name, off.toInt!⟩ } }, "ok")
+  | ["rate", code, bits] =>
+    -- update_currency after read_currency resolved the name to `code`
+    let rec upd : List (String × Float) → List (String × Float)
+      | [] => [(code, floatOfHex bits)]
+      | (k, v) :: rest => if k = code then (k, floatOfHex bits) :: rest
+                          else if code < k then (code, floatOfHex bits) :: (k, v) :: rest
+                          else (k, v) :: upd rest
+    ({ st with cfg := { st.cfg with rates := upd st.cfg.rates } }, "ok")
+  | ["line", lang, infos] =>
+    match decInfos infos with
+    | none => (st, "unsupported")
+    | some tis =>
+      let (vs', r) := evalInfos st.cfg lang st.now st.vars tis
+      let st := { st with vars := vs' }
+      match r with
+      | none => (st, "none")
+      | some (res, cinfos, raw) =>
+        let tail := "\t" ++ " ".intercalate (cinfos.map encInfo) ++ "\t" ++ " ".intercalate (raw.map encTok)
+        match res with
+        | .err _ => (st, "err" ++ tail)
+        | .ok .none => (st, "ok\t-\t" ++ tail)
+        | .ok (.month m) => (st, s!"ok\tMo:{m}\t" ++ tail)
+        | .ok (.item i) => (st, "ok\t" ++ encItem i ++ "\t" ++ hexOfString (printItem st.cfg lang st.now i) ++ tail)
+  | ["f64parse", t] =>
+    (st, match parseF64 (unescape t) with | some v => hexOfFloat v | none => "err")
+  | ["f64short", h] => (st, shortStr (floatOfHex h))
+  | ["f64fixed", h, n] => (st, fixedStr (floatOfHex h) n.toNat!)
   | _ => (st, "bad-op")
 
 partial def loop (h : IO.FS.Stream) (out : IO.FS.Stream) (st : DState) : IO Unit := do
